@@ -1746,6 +1746,11 @@ func (p *scionPacketProcessor) process() disposition {
 	if disp := p.determinePeer(); disp != pForward {
 		return disp
 	}
+	// The SegID has to be updated before any check that may answer with an SCMP error: the reply
+	// path is derived from the packet under the assumption that the ingress update has been done.
+	if disp := p.updateNonConsDirIngressSegID(); disp != pForward {
+		return disp
+	}
 	if disp := p.validateHopExpiry(); disp != pForward {
 		return disp
 	}
@@ -1762,9 +1767,6 @@ func (p *scionPacketProcessor) process() disposition {
 		return disp
 	}
 	if disp := p.validateSrcHost(); disp != pForward {
-		return disp
-	}
-	if disp := p.updateNonConsDirIngressSegID(); disp != pForward {
 		return disp
 	}
 	if disp := p.verifyCurrentMAC(); disp != pForward {
